@@ -328,6 +328,7 @@ pub fn quick_runs(property: &str) -> u64 {
         "C03" => 8000,
         "C04" => 8000,
         "C05" => 3000,
+        "C09" | "C10" => 2500,
         "C13" => 1500,
         "C14" => 8000,
         _ => 4000,
@@ -387,6 +388,10 @@ pub fn check(a: &CheckArgs, meta: &CheckMeta) -> i32 {
         for f in files {
             let Ok(s) = std::fs::read_to_string(&f) else { continue };
             let Ok(doc) = serde_json::from_str::<serde_json::Value>(&s) else { continue };
+            // plans of other engines serving the same property live in the same directory
+            if doc["engine"].as_str().map_or(false, |e| e != "qsim") {
+                continue;
+            }
             let Ok(plan) = serde_json::from_value::<Plan>(doc["plan"].clone()) else {
                 eprintln!("HARNESS-ERROR: regression plan {} does not parse", f.display());
                 return 2;
@@ -615,8 +620,8 @@ pub struct CheckMeta {
 
 pub fn meta_for(property: &str) -> CheckMeta {
     let components = json!({
-        "real": ["s2n-quic (Client/Server API)", "s2n-quic-transport", "s2n-quic-core", "s2n-quic-platform event loop + rx/tx rings (testing IO)", "s2n-quic-crypto packet/header protection and key update", "address token provider"],
-        "stub": ["TLS 1.3 handshake (sim-TLS: framed transport parameters + certificate blob, deterministic secrets)", "network (SimNet)", "clock (bach virtual time)", "random / connection-id / reset-token generators (seeded)"]
+        "real": ["s2n-quic (Client/Server API)", "s2n-quic-transport", "s2n-quic-core", "s2n-quic-platform event loop + rx/tx rings (testing IO)", "s2n-quic-crypto packet/header protection and key update"],
+        "stub": ["TLS 1.3 handshake (sim-TLS: framed transport parameters + certificate blob, deterministic secrets)", "network (SimNet)", "clock (bach virtual time)", "random / connection-id / reset-token / address-token generators (seeded; the library's default address-token provider rotates keys by the wall clock)"]
     });
     let assumptions = vec![
         "sampling, not proof: a clean batch is evidence only",
@@ -632,6 +637,7 @@ pub fn meta_for(property: &str) -> CheckMeta {
         "C06" => "plan = f(seed): family c06.forge injects only additive faults (bit-flipped / truncated / extended / spliced copies IN ADDITION to the genuine datagram, replays incl. from a third address, duplicates, unattributable and spoofed garbage) so every connection must survive and complete; family c06.mixed adds destructive faults (oracle 5 off); non-trivial = a non-genuine datagram was delivered to an endpoint and a stream completed; distinct = event-order hash",
         "C08" => "plan = f(seed): loss incl. ACK-only blackouts, reordering, duplication, delay; non-trivial = a fault fired and an ACK with gaps was sent or a packet was declared lost; distinct = event-order hash",
         "C11" => "plan = f(seed): certificate blobs up to 16 KB (server first flight far above 3x the client's Initial), handshake loss/duplication/delay, Retry on/off, up to 3 clients, and up to 40 unattributable datagrams (garbage, short header with unknown id, unknown version, Version Negotiation, version 0; sizes 1..1500) from a third address; non-trivial = certificate >= 3000 bytes and the handshake progressed, or an unattributable datagram was answered; distinct = event-order hash",
+        "C09" | "C10" => "END-TO-END PART (the component part runs in linksim): plan = f(seed): bulk transfers (up to 3 MiB) over lossy/reordering/duplicating links with total outages of 50 ms - 10 s, both congestion controllers; a shadow of RFC 9002 built from the endpoint's own events (packet_sent, ack_range_received, packet_lost, key_space_discarded, recovery_metrics, congestion, mtu_updated) and the cleartext of what it sent: C09 - every loss has a later acknowledged packet and meets the packet or time threshold (judged with the RTT estimate before and after), no packet resolved twice, recovery_metrics.bytes_in_flight equals the unresolved congestion-controlled packets at every metrics event, smoothed/min RTT inside the samples, consecutive PTO expiries at least base x 2^k apart; C10 - congestion window never below the controller's minimum and no normal-mode congestion-controlled packet leaves with bytes_in_flight >= window (PTO probes, MTU probes, CONNECTION_CLOSE and the one packet when entering recovery exempt); non-trivial = a fault fired, the application made progress and a loss / PTO>=3 / congestion event occurred; distinct = event-order hash",
         "C13" => "plan = f(seed): 1-3 long-lived connections (up to 260 s virtual) with keep-alive, connection-id lifetimes 60-120 s or none, handshake-id rotation on/off, active_connection_id_limit 2-8 on both sides, 0-5 NAT rebindings of each client at seeded times, loss/duplication/reordering up to 15 %; oracles over the recorded frames, datagram heads and endpoint events: consecutive sequence numbers, distinct ids and reset tokens (per connection and per endpoint), retire_prior_to <= seq, active ids <= peer limit at every issuance, RETIRE only of ids the peer issued and never inside a packet addressed to that id, datagrams for unretired ids of live connections neither handed to another connection nor treated as unroutable; non-trivial = NEW_CONNECTION_ID was sent and (an id was retired or a fault fired); distinct = event-order hash",
         "C14" => "REDUCED CLAIM (the pure decode table over all blocks is input enumeration): the rule catalogue (every numeric parameter at/around its bound, duplicates, removals, unknown and GREASE ids, server-only parameters in a client block, wrong/missing connection-id parameters, malformed encodings, truncations, reordering; ~120 rules per role) is enumerated completely by seed (fault_enumeration), alone and combined with an unknown parameter plus reordering, under random workloads and Retry on/off; expected verdict from an RFC 9000 7.3/7.4/18.2 table in /verif evaluated on the block as received; then the C03 credit monitor and a datagram-size monitor check that the declared values are the ones applied; non-trivial = the rewritten block reached the peer; distinct = event-order hash",
         "C12" => "plan = f(seed): send/finish/reset/stop_sending/close in all orders, hard application close, loss up to 30 %; non-trivial = RESET_STREAM/STOP_SENDING/CONNECTION_CLOSE was sent and a fault fired or a packet was lost; distinct = event-order hash",
@@ -773,6 +779,49 @@ pub fn main(args: &[String]) -> i32 {
                     println!("epev {seq} {ep} {t} {e:?}");
                 }
             }
+            0
+        }
+        "detdiff" => {
+            // run one plan concurrently in several threads; on a hash mismatch dump both histories
+            let property = it.next().cloned().unwrap_or_default();
+            let seed: u64 = it.next().and_then(|s| s.parse().ok()).unwrap_or(0);
+            let n: usize = it.next().and_then(|s| s.parse().ok()).unwrap_or(16);
+            let dump = |out: &crate::run::RunOutput| -> String {
+                let mut l: Vec<(u64, String)> = vec![];
+                for e in &out.obs.evs { l.push((e.seq, format!("EV {e:?}"))); }
+                for t in &out.obs.tx { l.push((t.seq, format!("TX ep{} c{} {:?} pn{} t{} h{:x} len{}", t.ep, t.conn, t.space, t.pn, t.t_ns, t.hash, t.payload.len()))); }
+                for t in &out.obs.rx { l.push((t.seq, format!("RX ep{} c{} {:?} pn{} t{} h{:x}", t.ep, t.conn, t.space, t.pn, t.t_ns, t.hash))); }
+                for d in &out.obs.tx_dgrams { l.push((d.seq, format!("DG ep{} c{} t{} len{} h{:x}", d.ep, d.conn, d.t_ns, d.bytes.len(), crate::kernel::hash_bytes(&d.bytes)))); }
+                for d in &out.obs.rx_dgrams { l.push((d.seq, format!("RD ep{} t{} len{} port{}", d.ep, d.t_ns, d.len, d.remote_port))); }
+                for (s, ep, t, e) in &out.obs.ep_evs { l.push((*s, format!("EP ep{ep} t{t} {e:?}"))); }
+                l.sort();
+                l.into_iter().map(|(s, x)| format!("{s} {x}\n")).collect()
+            };
+            let plan = gen::plan_for(&property, seed);
+            let res: Vec<(u64, String)> = std::thread::scope(|s| {
+                let hs: Vec<_> = (0..n)
+                    .map(|_| {
+                        let plan = plan.clone();
+                        let property = property.clone();
+                        s.spawn(move || {
+                            crate::run::install_panic_hook();
+                            let out = run::execute(&plan, needs_net_bytes(&property));
+                            (oracle::history_hash(&out), dump(&out))
+                        })
+                    })
+                    .collect();
+                hs.into_iter().map(|h| h.join().unwrap()).collect()
+            });
+            let h0 = res[0].0;
+            for (i, (h, d)) in res.iter().enumerate() {
+                if *h != h0 {
+                    std::fs::write("/tmp/detdiff_a.txt", &res[0].1).unwrap();
+                    std::fs::write("/tmp/detdiff_b.txt", d).unwrap();
+                    println!("MISMATCH run {i}: {h:016x} vs {h0:016x}; dumps in /tmp/detdiff_a.txt /tmp/detdiff_b.txt");
+                    return 2;
+                }
+            }
+            println!("all {n} equal {h0:016x}");
             0
         }
         "selfcheck" => {
